@@ -15,6 +15,7 @@ package main
 
 import (
 	"fmt"
+	"sort"
 	"strings"
 	"time"
 
@@ -180,7 +181,13 @@ func scenario(s spec) vx.Scenario {
 				we = i
 			}
 		}
-		for id, n := range execCount {
+		var eids []string
+		for id := range execCount {
+			eids = append(eids, id)
+		}
+		sort.Strings(eids)
+		for _, id := range eids {
+			n := execCount[id]
 			if n > 1 {
 				return vx.Verdict{Class: "executed-twice", Msg: fmt.Sprintf("task %s passed to the callback %d times", id, n)}
 			}
@@ -188,13 +195,24 @@ func scenario(s spec) vx.Scenario {
 				return vx.Verdict{Class: "phantom-task", Msg: fmt.Sprintf("callback received %s which was never added", id)}
 			}
 		}
+		var aids []string
 		for id := range added {
+			aids = append(aids, id)
+		}
+		sort.Strings(aids)
+		for _, id := range aids {
 			if execCount[id] == 0 {
 				return vx.Verdict{Class: "task-lost", Msg: fmt.Sprintf("task %s accepted by Add was never passed to the callback (execution ended with the flusher idle)", id)}
 			}
 		}
 		if we >= 0 {
-			for id, ae := range added {
+			var ids []string
+			for id := range added {
+				ids = append(ids, id)
+			}
+			sort.Strings(ids)
+			for _, id := range ids {
+				ae := added[id]
 				if ae < wb {
 					// added before Wait was called: its callback must have returned before Wait returned
 					end, ok := batchEnd[batchOf[id]]
